@@ -313,6 +313,10 @@ def _splits(tier):
                 pre = ' and '.join(('' if bits & (1 << i) else 'not ') + v for i, v in enumerate(('pa1', 'pb1')))
                 if tier == 'quick':
                     pre += ' and (mut %% 4 == %d)' % bits + ' and not mdb' * (not (bits == 3 and sh == 1)) + ' and side == (mut >= 4)'
+                else:
+                    # thorough: every shape, two flag-pair combinations; the mutation is tied to the split as in the quick tier but
+                    # shifted by the shape, so that over the shapes every mutation meets every presence pattern on both sides
+                    pre += ' and (mut %% 4 == %d)' % ((bits + sh) % 4) + ' and side == ((mut >= 4) == (%d %% 2 == 0))' % sh
                 out.append({'how': how, 'shape': sh, 'pairA': pa, 'pairB': pb, 'probe': bits == 0 or (tier != 'quick' and bits == 3), '_pre': pre})
                 if bits in (1, 3) and (tier != 'quick' or how == 'pickle' or sh == 0):
                     out.append({'how': how, 'shape': sh, 'pairA': pa, 'pairB': pb, 'probe': False, 'sub': 1 + (bits == 1) * 1, '_pre': pre})
